@@ -236,7 +236,12 @@ func RunC18(c *Ctx, r *Report) {
 				val = x.Value
 			}
 			if val != nil && ar.Level(s.Fn, val) == 2 {
-				checkType(fmt.Sprintf("%s stores into %s", c.FuncName(s.Fn), k), c.InstrPos(s.Ins), val.Type())
+				// a value boxed into an interface right here is judged by its concrete type
+				t := val.Type()
+				if mi, ok := val.(*ssa.MakeInterface); ok {
+					t = mi.X.Type()
+				}
+				checkType(fmt.Sprintf("%s stores into %s", c.FuncName(s.Fn), k), c.InstrPos(s.Ins), t)
 			}
 		}
 	}
